@@ -93,6 +93,7 @@ func ScriptBarePreprepareFork() *Result {
 		w.Deliver(w.Inject("nd01", to, adv.mkRefMsg(ref.EnvC, ref.C, "nd01", inst, 1, 1, spi.HashOf(E), nil)))
 	}
 	w.deliverAll(func(f *Flight) bool { return f.Honest && f.Msg != nil && f.Msg.Env == ref.EnvC && f.Msg.V == 1 && f.To != "nd00" })
+	w.release()
 	return &Result{Cfg: w.Cfg, Viol: w.Mon.Viol, Stats: w.Mon.Stats, Trace: w.Trace, Steps: len(w.Trace)}
 }
 
@@ -105,5 +106,13 @@ func ScriptHeavyMember() *Result {
 	p := &Profile{Tail: true, TailQuiet: true}
 	RunTail(w, NewAdversary(w, p), p, res)
 	res.Viol, res.Stats, res.Trace, res.Steps = w.Mon.Viol, w.Mon.Stats, w.Trace, len(w.Trace)
+	w.release()
 	return res
+}
+
+
+func (w *World) release() {
+	for _, id := range w.Order {
+		w.Nodes[id].W.VerifObserveRecoveredPanics(nil)
+	}
 }
